@@ -313,7 +313,7 @@ def stat_run(spec):
         g = cm.CliffordGate(0, **kw)
         holder = g
         hk = spec.get('holder', 'gate')
-        if hk != 'gate':
+        if hk not in ('gate', 'gate-rejected-call'):
             # the map-less gate sits in a layer / circuit on which compile() was attempted (it cannot be compiled: an exception is the documented
             # outcome); the object is then used as before and must still draw a fresh map per call
             if hk == 'layer':
@@ -333,6 +333,25 @@ def stat_run(spec):
             except Exception:
                 compiled = False
             check(not compiled, 'compile() of a %s holding a map-less gate did not raise' % hk, 'random-compile-accepted')
+        if hk == 'gate-rejected-call':
+            # the gate was first applied to things it cannot act on (an object that is no Pauli container, a register that lacks its qubit):
+            # those calls raise; afterwards the gate is used normally and must still draw a fresh map per call
+            nrej = 0
+            for bad in (object(), None):
+                for meth in (g.forward, g.backward):
+                    try:
+                        meth(bad)
+                    except Exception:
+                        nrej += 1
+            g2 = cm.CliffordGate(1, **kw)
+            for meth in (g2.forward, g2.backward):
+                try:
+                    meth(Bk.plist(*ref.parse_list(['+Z'])))      # qubit 1 of a one-qubit register
+                except Exception:
+                    nrej += 1
+            check(nrej >= 4, 'calls on unusable arguments were accepted', 'random-gate-accepts-garbage')
+            check(g.forward_map is None and g.backward_map is None and g2.forward_map is None and g2.backward_map is None,
+                  'a rejected call left a map stored on a map-less gate', 'not-resampled-after-rejected-call')
         counts = np.zeros((6, 6))
         same = 0
 
@@ -349,7 +368,8 @@ def stat_run(spec):
         check(g.forward_map is None and g.backward_map is None, 'a random gate stored a map', 'random-gate-cached')
         stat, p = chi2_p(counts.ravel(), np.full(36, n / 36))
         check(p >= P_REJECT, 'consecutive calls of a map-less gate%s: chi-square %.1f over 36 cells p=%.3g (equal pairs %d of %d)' % (
-            '' if hk == 'gate' else ' inside a %s after a rejected compile()' % hk, stat, p, same, n), 'not-resampled' if hk == 'gate' else 'not-resampled-after-rejected-compile')
+            '' if hk == 'gate' else (' after rejected calls' if hk == 'gate-rejected-call' else ' inside a %s after a rejected compile()' % hk), stat, p, same, n),
+            'not-resampled' if hk == 'gate' else ('not-resampled-after-rejected-call' if hk == 'gate-rejected-call' else 'not-resampled-after-rejected-compile'))
         return {'cells': 36, 'chi2': stat, 'p': p, 'distinct': set(range(36))}
     raise ValueError(what)
 
@@ -387,7 +407,7 @@ NPQ = [{'what': 'clifford', 'N': 1, 'n': 24000}, {'what': 'clifford-signed', 'N'
        {'what': 'signs', 'N': 2, 'n': 10000}, {'what': 'bitstate', 'N': 3, 'n': 10000}, {'what': 'coin', 'N': 2, 'n': 20000}, {'what': 'coin-mixed', 'N': 3, 'n': 12000}, {'what': 'coin-mixed', 'N': 2, 'n': 8000}, {'what': 'resample', 'N': 1, 'n': 10000}, {'what': 'gate-forward', 'N': 2, 'n': 36000}, {'what': 'gate-backward', 'N': 2, 'n': 36000},
        {'what': 'clifford-state', 'N': 2, 'r': 1, 'n': 6000}, {'what': 'clifford-state', 'N': 2, 'r': 0, 'n': 9000}, {'what': 'clifford-state', 'N': 3, 'r': 1, 'n': 30000},
        {'what': 'clifford-state', 'N': 3, 'r': 2, 'n': 10000}, {'what': 'pauli-state', 'N': 2, 'r': 1, 'n': 3000}, {'what': 'pauli-state', 'N': 3, 'r': 1, 'n': 8000},
-       {'what': 'resample', 'N': 1, 'n': 3000, 'holder': 'layer'}, {'what': 'resample', 'N': 1, 'n': 3000, 'holder': 'CliffordCircuit'}, {'what': 'resample', 'N': 1, 'n': 3000, 'holder': 'Circuit'}]
+       {'what': 'resample', 'N': 1, 'n': 3000, 'holder': 'layer'}, {'what': 'resample', 'N': 1, 'n': 3000, 'holder': 'CliffordCircuit'}, {'what': 'resample', 'N': 1, 'n': 3000, 'holder': 'Circuit'}, {'what': 'resample', 'N': 1, 'n': 3000, 'holder': 'gate-rejected-call'}]
 NPT = [{'what': 'clifford', 'N': 1, 'n': 240000}, {'what': 'clifford-signed', 'N': 1, 'n': 240000}, {'what': 'clifford', 'N': 2, 'n': 1500000},
        {'what': 'clifford-signed', 'N': 2, 'n': 1200000}, {'what': 'clifford', 'N': 2, 'n': 1500000}, {'what': 'clifford-signed', 'N': 2, 'n': 1200000},
        {'what': 'pauli-map', 'N': 1, 'n': 120000}, {'what': 'pauli-map', 'N': 2, 'n': 600000}, {'what': 'pair', 'N': 1, 'n': 60000}, {'what': 'pair', 'N': 2, 'n': 240000},
@@ -396,12 +416,12 @@ NPT = [{'what': 'clifford', 'N': 1, 'n': 240000}, {'what': 'clifford-signed', 'N
        {'what': 'clifford-state', 'N': 2, 'r': 1, 'n': 120000}, {'what': 'clifford-state', 'N': 2, 'r': 0, 'n': 120000}, {'what': 'clifford-state', 'N': 3, 'r': 1, 'n': 400000},
        {'what': 'clifford-state', 'N': 3, 'r': 2, 'n': 200000}, {'what': 'clifford-state', 'N': 3, 'r': 0, 'n': 400000}, {'what': 'clifford-state', 'N': 4, 'r': 3, 'n': 200000},
        {'what': 'pauli-state', 'N': 2, 'r': 1, 'n': 60000}, {'what': 'pauli-state', 'N': 3, 'r': 1, 'n': 100000}, {'what': 'pauli-state', 'N': 3, 'r': 0, 'n': 100000},
-       {'what': 'resample', 'N': 1, 'n': 60000, 'holder': 'layer'}, {'what': 'resample', 'N': 1, 'n': 60000, 'holder': 'CliffordCircuit'}, {'what': 'resample', 'N': 1, 'n': 60000, 'holder': 'Circuit'}]
+       {'what': 'resample', 'N': 1, 'n': 60000, 'holder': 'layer'}, {'what': 'resample', 'N': 1, 'n': 60000, 'holder': 'CliffordCircuit'}, {'what': 'resample', 'N': 1, 'n': 60000, 'holder': 'Circuit'}, {'what': 'resample', 'N': 1, 'n': 60000, 'holder': 'gate-rejected-call'}]
 TQ = [{'what': 'gate-backward', 'N': 2, 'n': 14400}, {'what': 'clifford', 'N': 1, 'n': 6000}, {'what': 'clifford', 'N': 2, 'n': 14400}, {'what': 'pauli-map', 'N': 2, 'n': 40000}, {'what': 'pair', 'N': 2, 'n': 6000},
       {'what': 'clifford-state', 'N': 2, 'r': 1, 'n': 3000},
       {'what': 'clifford-signed', 'N': 1, 'n': 6000, 'dev': 'obj'}, {'what': 'signs', 'N': 2, 'n': 3000, 'dev': 'obj'}, {'what': 'resample', 'N': 1, 'n': 3000, 'dev': 'obj'},
       {'what': 'pauli-map', 'N': 1, 'n': 6000, 'dev': 'obj'}, {'what': 'clifford-state', 'N': 2, 'r': 1, 'n': 3000, 'dev': 'obj'}, {'what': 'gate-forward', 'N': 1, 'n': 3000, 'dev': 'obj'},
-      {'what': 'resample', 'N': 1, 'n': 2000, 'holder': 'layer'}, {'what': 'resample', 'N': 1, 'n': 2000, 'holder': 'CliffordCircuit'}]
+      {'what': 'resample', 'N': 1, 'n': 2000, 'holder': 'layer'}, {'what': 'resample', 'N': 1, 'n': 2000, 'holder': 'CliffordCircuit'}, {'what': 'resample', 'N': 1, 'n': 2000, 'holder': 'gate-rejected-call'}]
 TT = [{'what': 'clifford', 'N': 1, 'n': 60000}, {'what': 'clifford', 'N': 2, 'n': 200000}, {'what': 'clifford-signed', 'N': 1, 'n': 60000},
       {'what': 'pauli-map', 'N': 2, 'n': 120000}, {'what': 'pair', 'N': 2, 'n': 60000}, {'what': 'signs', 'N': 2, 'n': 40000},
       {'what': 'clifford-state', 'N': 2, 'r': 1, 'n': 30000}, {'what': 'clifford-state', 'N': 3, 'r': 1, 'n': 60000}, {'what': 'pauli-state', 'N': 2, 'r': 1, 'n': 20000},
